@@ -34,8 +34,10 @@ type Contract struct {
 	Pkg      *packages.Package
 	Mode     string // "int" | "bv" | "" (inherit / default bv)
 	Requires []*Clause
+	Assumes  []*Clause
 	Ensures  []*Clause
 	Assigns  []*Expr
+	Allocates []*Expr
 	AssignsAll bool
 	Pure     bool
 	Inline   bool
@@ -100,7 +102,7 @@ func newDB() *ContractDB {
 	return &ContractDB{Funcs: map[string]*Contract{}, Specs: map[string]*SpecFn{}, Lemmas: map[string]*Lemma{}, Ghosts: map[string]*GhostVar{}, Consts: map[string]*ConstDef{}}
 }
 
-var subKeywords = map[string]bool{"arith": true, "requires": true, "ensures": true, "assigns": true, "pure": true, "inline": true,
+var subKeywords = map[string]bool{"arith": true, "requires": true, "assumes": true, "allocates": true, "ensures": true, "assigns": true, "pure": true, "inline": true,
 	"trusted": true, "loop": true, "invariant": true, "decreases": true, "unroll": true, "assert": true, "replay": true,
 	"nosafety": true, "abstract": true, "using": true, "let": true, "opaque": true}
 var topKeywords = map[string]bool{"func": true, "spec": true, "lemma": true, "axiom": true, "ghost": true, "const": true, "global": true, "evalconst": true}
@@ -389,6 +391,17 @@ func (db *ContractDB) loadFile(pkg *packages.Package, f *ast.File, fname string)
 				}
 			case "arith":
 				cur.Mode = rest
+			case "allocates":
+				// objects created by the function (evaluated in the post-state, results bound): at a call
+				// site their components get fresh contents, then the ensures describe them
+				for _, a := range splitTop(rest, ',') {
+					cur.Allocates = append(cur.Allocates, db.mustExpr(a, where))
+				}
+			case "assumes":
+				// like requires for the function's own proof, but NOT checked at call sites: an
+				// unchecked assumption about callers, listed in the evidence
+				lb, ex := splitLabel(rest)
+				cur.Assumes = append(cur.Assumes, &Clause{Label: lb, E: db.mustExpr(ex, where)})
 			case "requires":
 				lb, ex := splitLabel(rest)
 				cur.Requires = append(cur.Requires, &Clause{Label: lb, E: db.mustExpr(ex, where)})
